@@ -178,6 +178,10 @@ impl Scenario for WindowScenario {
             let seg = segment(&h, &cfg, d.evals.0, d.evals.1);
             let changed_now = prev.has_initial_mass_matrix && !c.has_initial_mass_matrix;
             if cfg.preset.is_nuts() && !o.fixed_step {
+                // (a recoverable failure of the density at the search's start point skips the search: the
+                // base-point evaluation is then the last evaluation of the call and returned an error)
+                let base_failed = seg.search_base.map(|b| h.evals.iter().any(|e| e.index == b && e.returned_err)).unwrap_or(false);
+                let _ = base_failed;
                 if changed_now && seg.search_base.is_none() {
                     out.violate(format!("C09/no_step_size_search_after_first_update/{pname}"), format!("draw {n}: first transformation change without a re-run of the step-size search"));
                     return out;
